@@ -5,7 +5,7 @@
 cd "$(dirname "$0")/.."
 mkdir -p .build
 ./tools/mkproject.sh || exit 1
-timeout 7200 make -C coq -j16 -k >.build/setup_coq.log 2>&1 || { echo "WARNING: some Coq files did not build:"; grep -B2 -A6 "^Error" .build/setup_coq.log | head -60; }
+timeout 3000 make -C coq -j16 -k "COQC=timeout 900 coqc" >.build/setup_coq.log 2>&1 || { echo "WARNING: some Coq files did not build:"; grep -B2 -A6 "^Error" .build/setup_coq.log | head -60; }
 python3 - <<'PY'
 import sys, os, glob
 sys.path.insert(0, "tools")
